@@ -337,14 +337,16 @@ fn item_ext(code: i64, text: &[u8]) -> i64 {
         return -1;
     }
     let inner = &text[1..text.len() - 1];
-    let own: &[u8] = if code == 0 { b"No error" } else { mk_error(code, 0).get_message() };
-    if inner == own {
+    // inside a string response every embedded double quote is doubled
+    let dbl = |s: &[u8]| -> Vec<u8> { s.iter().flat_map(|c| if *c == b'"' { vec![b'"', b'"'] } else { vec![*c] }).collect() };
+    let own: Vec<u8> = dbl(if code == 0 { b"No error" } else { mk_error(code, 0).get_message() });
+    if inner == &own[..] {
         return 0;
     }
     for (i, x) in EXT.iter().enumerate().skip(1) {
         let mut full = own.to_vec();
         full.push(b';');
-        full.extend_from_slice(x);
+        full.extend_from_slice(&dbl(x));
         if inner == &full[..] {
             return i as i64;
         }
